@@ -47,19 +47,21 @@ def parsePat : List Char → List Tok
   | [] => []
   | c :: cs => (if c = '*' then Tok.star else if c = '?' then Tok.one else Tok.lit c) :: parsePat cs
 
+/-- `.*` followed by the rest of the pattern `f`: try every split point -/
+def starAux (f : List Char → Bool) : List Char → Bool
+  | [] => f []
+  | d :: ds => f (d :: ds) || starAux f ds
+
 /-- `re.match(fnmatch.translate(pat), s)`: the whole of `s` has to be consumed -/
 def globMatch : List Tok → List Char → Bool
-  | [], s => s.isEmpty
-  | .lit c :: ts, s => match s with
+  | [] => fun s => s.isEmpty
+  | .lit c :: ts => fun s => match s with
     | [] => false
     | d :: ds => c == d && globMatch ts ds
-  | .one :: ts, s => match s with
+  | .one :: ts => fun s => match s with
     | [] => false
     | _ :: ds => globMatch ts ds
-  | .star :: ts, s => match s with
-    | [] => globMatch ts []
-    | d :: ds => globMatch ts (d :: ds) || globMatch (.star :: ts) ds
-termination_by ts s => (ts.length, s.length)
+  | .star :: ts => fun s => starAux (globMatch ts) s
 
 /-- `x.endswith("/*")` -/
 def endsSlashStar (x : List Char) : Bool := ['/', '*'].isSuffixOf x
@@ -83,7 +85,11 @@ def ignoreFilter (offset : Path) (ignores : List (List Char)) (isdir : Path → 
 
 def cfgPrefix : List Char := "._cfg".toList
 
-def digitVal (c : Char) : Option Nat := if c.isDigit then some (c.toNat - 48) else none
+/-- value of an ASCII digit -/
+def digitVal (c : Char) : Option Nat :=
+  if c = '0' then some 0 else if c = '1' then some 1 else if c = '2' then some 2 else if c = '3' then some 3
+  else if c = '4' then some 4 else if c = '5' then some 5 else if c = '6' then some 6 else if c = '7' then some 7
+  else if c = '8' then some 8 else if c = '9' then some 9 else none
 
 /-- `count = int(x[5:9]); x[9] == "_"; fn = x[10:]` for a name starting with `._cfg` -/
 def parseCfg (x : List Char) : Option (Nat × List Char) :=
@@ -98,10 +104,13 @@ def parseCfg (x : List Char) : Option (Nat × List Char) :=
     | _ => none
   else none
 
-/-- `f"{count:04d}"` -/
+def digitChar : Nat → Char
+  | 0 => '0' | 1 => '1' | 2 => '2' | 3 => '3' | 4 => '4' | 5 => '5' | 6 => '6' | 7 => '7' | 8 => '8' | _ => '9'
+
+/-- `f"{count:04d}"`: four digits, zero padded; longer when the number needs it -/
 def pad4 (n : Nat) : List Char :=
-  let s := (Nat.repr n).toList
-  List.replicate (4 - s.length) '0' ++ s
+  if n < 10000 then [digitChar (n / 1000 % 10), digitChar (n / 100 % 10), digitChar (n / 10 % 10), digitChar (n % 10)]
+  else (Nat.repr n).toList
 
 /-- `f"._cfg{count:04d}_{fname}"` -/
 def cfgName (count : Nat) (fname : List Char) : List Char := cfgPrefix ++ pad4 count ++ '_' :: fname
